@@ -4,6 +4,14 @@ package main
 // way an object looks that reached istiod without passing admission validation (webhook disabled,
 // failurePolicy Ignore, file/MCP source, older CRD schema). The store of NewConfigGenTest does not
 // validate, so the object reaches the generators unfiltered.
+//
+// Only objects that can exist are in the property's quantifier ("every object the control plane can be
+// handed"): whatever the source (Kubernetes JSON, files, MCP-over-xDS), an object arrives as a decoded
+// protobuf message. A Go-only state such as a nil pointer inside a repeated field or a nil map value
+// cannot be decoded from any encoding (JSON null elements are refused or become empty messages, the
+// binary encoding has no notion of it). Every damaged object therefore goes through wireRoundTrip
+// (binary protobuf, the most permissive encoding) before use, and the operators damage with empty
+// messages ("- {}"), never with nil elements.
 
 import (
 	"math/rand"
@@ -110,7 +118,10 @@ var operators = []operator{
 	// ---- ServiceEntry
 	{"host-empty", gvk.ServiceEntry, se(func(r *rand.Rand, s *networking.ServiceEntry) bool { s.Hosts[r.Intn(len(s.Hosts))] = ""; return true })},
 	{"host-none", gvk.ServiceEntry, se(func(r *rand.Rand, s *networking.ServiceEntry) bool { s.Hosts = nil; return true })},
-	{"host-duplicate", gvk.ServiceEntry, se(func(r *rand.Rand, s *networking.ServiceEntry) bool { s.Hosts = append(s.Hosts, s.Hosts[0]); return true })},
+	{"host-duplicate", gvk.ServiceEntry, se(func(r *rand.Rand, s *networking.ServiceEntry) bool {
+		s.Hosts = append(s.Hosts, s.Hosts[0])
+		return true
+	})},
 	{"host-duplicate-case", gvk.ServiceEntry, se(func(r *rand.Rand, s *networking.ServiceEntry) bool {
 		h := []byte(s.Hosts[0])
 		for i := range h {
@@ -127,10 +138,19 @@ var operators = []operator{
 		s.Hosts[0] = pick(r, []string{"a_b..example.com", "*.*.example.com", "foo*", "exa mple.com", "-bad-.com", "a.example.com:80", "http://a.example.com", "*a.example.com"})
 		return true
 	})},
-	{"port-zero", gvk.ServiceEntry, se(func(r *rand.Rand, s *networking.ServiceEntry) bool { s.Ports[r.Intn(len(s.Ports))].Number = 0; return true })},
-	{"port-70000", gvk.ServiceEntry, se(func(r *rand.Rand, s *networking.ServiceEntry) bool { s.Ports[r.Intn(len(s.Ports))].Number = 70000; return true })},
+	{"port-zero", gvk.ServiceEntry, se(func(r *rand.Rand, s *networking.ServiceEntry) bool {
+		s.Ports[r.Intn(len(s.Ports))].Number = 0
+		return true
+	})},
+	{"port-70000", gvk.ServiceEntry, se(func(r *rand.Rand, s *networking.ServiceEntry) bool {
+		s.Ports[r.Intn(len(s.Ports))].Number = 70000
+		return true
+	})},
 	{"port-none", gvk.ServiceEntry, se(func(r *rand.Rand, s *networking.ServiceEntry) bool { s.Ports = nil; return true })},
-	{"port-nil-entry", gvk.ServiceEntry, se(func(r *rand.Rand, s *networking.ServiceEntry) bool { s.Ports = append(s.Ports, nil); return true })},
+	{"port-empty-entry", gvk.ServiceEntry, se(func(r *rand.Rand, s *networking.ServiceEntry) bool {
+		s.Ports = append(s.Ports, &networking.ServicePort{})
+		return true
+	})},
 	{"target-port-70000", gvk.ServiceEntry, se(func(r *rand.Rand, s *networking.ServiceEntry) bool { s.Ports[0].TargetPort = 70000; return true })},
 	{"port-number-duplicate", gvk.ServiceEntry, se(func(r *rand.Rand, s *networking.ServiceEntry) bool {
 		p := s.Ports[0]
@@ -165,11 +185,11 @@ var operators = []operator{
 		s.Endpoints[r.Intn(len(s.Endpoints))].Address = pick(r, []string{"", "not an address", "300.1.1.1", "unix://relative/path", "10.0.0.1:80", "*.example.com"})
 		return true
 	})},
-	{"endpoint-nil", gvk.ServiceEntry, se(func(r *rand.Rand, s *networking.ServiceEntry) bool {
+	{"endpoint-empty-entry", gvk.ServiceEntry, se(func(r *rand.Rand, s *networking.ServiceEntry) bool {
 		if s.WorkloadSelector != nil {
 			return false
 		}
-		s.Endpoints = append(s.Endpoints, nil)
+		s.Endpoints = append(s.Endpoints, &networking.WorkloadEntry{})
 		return true
 	})},
 	{"endpoint-port-invalid", gvk.ServiceEntry, se(func(r *rand.Rand, s *networking.ServiceEntry) bool {
@@ -207,7 +227,10 @@ var operators = []operator{
 		s.WorkloadSelector = &networking.WorkloadSelector{}
 		return true
 	})},
-	{"resolution-unknown", gvk.ServiceEntry, se(func(r *rand.Rand, s *networking.ServiceEntry) bool { s.Resolution = networking.ServiceEntry_Resolution(9); return true })},
+	{"resolution-unknown", gvk.ServiceEntry, se(func(r *rand.Rand, s *networking.ServiceEntry) bool {
+		s.Resolution = networking.ServiceEntry_Resolution(9)
+		return true
+	})},
 	{"export-to-invalid", gvk.ServiceEntry, se(func(r *rand.Rand, s *networking.ServiceEntry) bool {
 		s.ExportTo = pick(r, [][]string{{"~", "*"}, {""}, {"*", "."}, {"not a namespace!"}, {"~"}})
 		return true
@@ -430,15 +453,18 @@ var operators = []operator{
 		}
 		return ok
 	})},
-	{"route-destination-nil-entry", gvk.VirtualService, vs(func(r *rand.Rand, s *networking.VirtualService) bool {
+	{"route-destination-empty-entry", gvk.VirtualService, vs(func(r *rand.Rand, s *networking.VirtualService) bool {
 		hs := routedHTTP(s)
 		if len(hs) == 0 {
 			return false
 		}
-		hs[0].Route = append(hs[0].Route, nil)
+		hs[0].Route = append(hs[0].Route, &networking.HTTPRouteDestination{})
 		return true
 	})},
-	{"http-route-nil-entry", gvk.VirtualService, vs(func(r *rand.Rand, s *networking.VirtualService) bool { s.Http = append(s.Http, nil); return true })},
+	{"http-route-empty-last", gvk.VirtualService, vs(func(r *rand.Rand, s *networking.VirtualService) bool {
+		s.Http = append(s.Http, &networking.HTTPRoute{})
+		return true
+	})},
 	{"http-route-empty", gvk.VirtualService, vs(func(r *rand.Rand, s *networking.VirtualService) bool {
 		s.Http = append([]*networking.HTTPRoute{{}}, s.Http...)
 		return true
@@ -468,11 +494,11 @@ var operators = []operator{
 		s.Tls[0].Match[0].SniHosts = []string{pick(r, []string{"*", "foo*bar.com", "*foo.com", "", "a.*.com", "outside.other.org"})}
 		return true
 	})},
-	{"match-nil-entry", gvk.VirtualService, vs(func(r *rand.Rand, s *networking.VirtualService) bool {
+	{"match-empty-entry", gvk.VirtualService, vs(func(r *rand.Rand, s *networking.VirtualService) bool {
 		if len(s.Http) == 0 {
 			return false
 		}
-		s.Http[0].Match = append(s.Http[0].Match, nil)
+		s.Http[0].Match = append(s.Http[0].Match, &networking.HTTPMatchRequest{})
 		return true
 	})},
 	{"subnet-invalid", gvk.VirtualService, vs(func(r *rand.Rand, s *networking.VirtualService) bool {
@@ -519,7 +545,7 @@ var operators = []operator{
 		case 0:
 			m.Uri = &networking.StringMatch{}
 		case 1:
-			m.Headers = map[string]*networking.StringMatch{"x-user": nil}
+			m.Headers = map[string]*networking.StringMatch{"x-user": {}}
 		case 2:
 			m.Uri = &networking.StringMatch{MatchType: &networking.StringMatch_Prefix{Prefix: ""}}
 		case 3:
@@ -715,7 +741,7 @@ var operators = []operator{
 			hs[0].Mirror = &networking.Destination{}
 		} else {
 			hs[0].Mirror = nil
-			hs[0].Mirrors = []*networking.HTTPMirrorPolicy{{Destination: nil}, nil}
+			hs[0].Mirrors = []*networking.HTTPMirrorPolicy{{Destination: nil}, {}}
 		}
 		return true
 	})},
@@ -739,7 +765,6 @@ var operators = []operator{
 		}
 		s.Http[0].CorsPolicy = pick(r, []*networking.CorsPolicy{
 			{AllowOrigins: []*networking.StringMatch{{MatchType: &networking.StringMatch_Regex{Regex: "["}}}},
-			{AllowOrigins: []*networking.StringMatch{nil}},
 			{AllowOrigins: []*networking.StringMatch{{}}},
 			{AllowMethods: []string{"NOT A METHOD", ""}},
 			{MaxAge: durationpb.New(-1e9)},
@@ -760,7 +785,10 @@ var operators = []operator{
 		ms[0].SourceLabels = map[string]string{"": "", "bad key!": "bad value!"}
 		return true
 	})},
-	{"no-routes-at-all", gvk.VirtualService, vs(func(r *rand.Rand, s *networking.VirtualService) bool { s.Http, s.Tcp, s.Tls = nil, nil, nil; return true })},
+	{"no-routes-at-all", gvk.VirtualService, vs(func(r *rand.Rand, s *networking.VirtualService) bool {
+		s.Http, s.Tcp, s.Tls = nil, nil, nil
+		return true
+	})},
 
 	// ---- DestinationRule
 	{"host-empty", gvk.DestinationRule, dr(func(r *rand.Rand, s *networking.DestinationRule) bool { s.Host = ""; return true })},
@@ -785,7 +813,10 @@ var operators = []operator{
 		s.Subsets = append(s.Subsets, &networking.Subset{Name: pick(r, []string{"a|b", "has space", "UPPER", "x/y", "v1\n"}), Labels: map[string]string{"version": "v9"}})
 		return true
 	})},
-	{"subset-nil-entry", gvk.DestinationRule, dr(func(r *rand.Rand, s *networking.DestinationRule) bool { s.Subsets = append(s.Subsets, nil); return true })},
+	{"subset-empty-entry", gvk.DestinationRule, dr(func(r *rand.Rand, s *networking.DestinationRule) bool {
+		s.Subsets = append(s.Subsets, &networking.Subset{})
+		return true
+	})},
 	{"subset-labels-invalid", gvk.DestinationRule, dr(func(r *rand.Rand, s *networking.DestinationRule) bool {
 		s.Subsets = append(s.Subsets, &networking.Subset{Name: "weird", Labels: map[string]string{"": "", "bad key!": "bad value!"}})
 		return true
@@ -800,9 +831,9 @@ var operators = []operator{
 		tp.PortLevelSettings = append(tp.PortLevelSettings, &networking.TrafficPolicy_PortTrafficPolicy{Port: &networking.PortSelector{Number: 70000}, LoadBalancer: &networking.LoadBalancerSettings{LbPolicy: &networking.LoadBalancerSettings_Simple{Simple: networking.LoadBalancerSettings_RANDOM}}})
 		return true
 	})},
-	{"port-level-nil", gvk.DestinationRule, dr(func(r *rand.Rand, s *networking.DestinationRule) bool {
+	{"port-level-empty", gvk.DestinationRule, dr(func(r *rand.Rand, s *networking.DestinationRule) bool {
 		tp := ensureTP(s)
-		tp.PortLevelSettings = append(tp.PortLevelSettings, pick(r, []*networking.TrafficPolicy_PortTrafficPolicy{nil, {}, {Port: nil, Tls: &networking.ClientTLSSettings{Mode: networking.ClientTLSSettings_SIMPLE}}}))
+		tp.PortLevelSettings = append(tp.PortLevelSettings, pick(r, []*networking.TrafficPolicy_PortTrafficPolicy{{}, {Port: nil, Tls: &networking.ClientTLSSettings{Mode: networking.ClientTLSSettings_SIMPLE}}}))
 		return true
 	})},
 	{"port-level-duplicate", gvk.DestinationRule, dr(func(r *rand.Rand, s *networking.DestinationRule) bool {
@@ -875,10 +906,10 @@ var operators = []operator{
 			{Distribute: []*networking.LocalityLoadBalancerSetting_Distribute{{From: "", To: map[string]uint32{"": 100}}}},
 			{Distribute: []*networking.LocalityLoadBalancerSetting_Distribute{{From: "*/zone", To: map[string]uint32{"a/*/c": 100}}}},
 			{Distribute: []*networking.LocalityLoadBalancerSetting_Distribute{{From: "region1/*", To: map[string]uint32{"region1/*": 4294967295, "region2/*": 4294967295}}}},
-			{Distribute: []*networking.LocalityLoadBalancerSetting_Distribute{nil}},
+			{Distribute: []*networking.LocalityLoadBalancerSetting_Distribute{{}}},
 			{Distribute: []*networking.LocalityLoadBalancerSetting_Distribute{{From: "region1/*", To: map[string]uint32{"region1/*": 100}}}, Failover: []*networking.LocalityLoadBalancerSetting_Failover{{From: "region1", To: "region2"}}},
 			{Failover: []*networking.LocalityLoadBalancerSetting_Failover{{From: "region1", To: "region1"}}},
-			{Failover: []*networking.LocalityLoadBalancerSetting_Failover{{From: "region1/zone1", To: "*"}, nil}},
+			{Failover: []*networking.LocalityLoadBalancerSetting_Failover{{From: "region1/zone1", To: "*"}, {}}},
 			{Failover: []*networking.LocalityLoadBalancerSetting_Failover{{From: "region1", To: "region2"}}, FailoverPriority: []string{"a", "a", ""}},
 		})
 		return true
@@ -950,7 +981,10 @@ var operators = []operator{
 		s.Servers[0].Port.Protocol = pick(r, []string{"FOO", "", "UDP", "http/2", "HTTP_PROXY"})
 		return true
 	})},
-	{"server-nil-entry", gvk.Gateway, gw(func(r *rand.Rand, s *networking.Gateway) bool { s.Servers = append(s.Servers, nil); return true })},
+	{"server-empty-entry", gvk.Gateway, gw(func(r *rand.Rand, s *networking.Gateway) bool {
+		s.Servers = append(s.Servers, &networking.Server{})
+		return true
+	})},
 	{"server-none", gvk.Gateway, gw(func(r *rand.Rand, s *networking.Gateway) bool { s.Servers = nil; return true })},
 	{"server-name-duplicate", gvk.Gateway, gw(func(r *rand.Rand, s *networking.Gateway) bool {
 		s.Servers[0].Name = "same"
@@ -988,7 +1022,7 @@ var operators = []operator{
 			{Mode: networking.ServerTLSSettings_SIMPLE, CredentialName: "cred-a", CipherSuites: []string{"NOT-A-CIPHER", "", "ECDHE-RSA-AES128-GCM-SHA256", "ECDHE-RSA-AES128-GCM-SHA256"}},
 			{Mode: networking.ServerTLSSettings_SIMPLE, CredentialName: "cred-a", VerifyCertificateSpki: []string{"not base64!"}, VerifyCertificateHash: []string{"zz"}},
 			{Mode: networking.ServerTLSSettings_SIMPLE, CredentialName: "cred-a", EcdhCurves: []string{"NOT-A-CURVE", "P-256", "P-256"}},
-			{Mode: networking.ServerTLSSettings_MUTUAL, TlsCertificates: []*networking.ServerTLSSettings_TLSCertificate{{ServerCertificate: "/a.pem", PrivateKey: "/a.key"}, {ServerCertificate: "", PrivateKey: ""}, nil}},
+			{Mode: networking.ServerTLSSettings_MUTUAL, TlsCertificates: []*networking.ServerTLSSettings_TLSCertificate{{ServerCertificate: "/a.pem", PrivateKey: "/a.key"}, {ServerCertificate: "", PrivateKey: ""}, {}}},
 			{HttpsRedirect: true, Mode: networking.ServerTLSSettings_SIMPLE, CredentialName: "cred-a"},
 		})
 		return true
@@ -1031,7 +1065,10 @@ var operators = []operator{
 		return true
 	})},
 	{"egress-none", gvk.Sidecar, sc(func(r *rand.Rand, s *networking.Sidecar) bool { s.Egress = nil; s.Ingress = nil; return true })},
-	{"egress-nil-entry", gvk.Sidecar, sc(func(r *rand.Rand, s *networking.Sidecar) bool { s.Egress = append(s.Egress, nil); return true })},
+	{"egress-empty-entry", gvk.Sidecar, sc(func(r *rand.Rand, s *networking.Sidecar) bool {
+		s.Egress = append(s.Egress, &networking.IstioEgressListener{})
+		return true
+	})},
 	{"egress-two-catch-all", gvk.Sidecar, sc(func(r *rand.Rand, s *networking.Sidecar) bool {
 		s.Egress = append(s.Egress, &networking.IstioEgressListener{Hosts: []string{"*/*"}}, &networking.IstioEgressListener{Hosts: []string{"./*"}})
 		return true
@@ -1055,7 +1092,6 @@ var operators = []operator{
 			s.WorkloadSelector = &networking.WorkloadSelector{Labels: map[string]string{"app": "a"}}
 		}
 		s.Ingress = append(s.Ingress, pick(r, []*networking.IstioIngressListener{
-			nil,
 			{},
 			{Port: &networking.SidecarPort{Number: 0, Protocol: "HTTP", Name: "zero"}, DefaultEndpoint: "127.0.0.1:8080"},
 			{Port: &networking.SidecarPort{Number: 70000, Protocol: "HTTP", Name: "big"}, DefaultEndpoint: "127.0.0.1:8080"},
@@ -1097,11 +1133,14 @@ var operators = []operator{
 		s.OutboundTrafficPolicy = &networking.OutboundTrafficPolicy{Mode: networking.OutboundTrafficPolicy_Mode(7)}
 		return true
 	})},
-	{"capture-mode-unknown", gvk.Sidecar, sc(func(r *rand.Rand, s *networking.Sidecar) bool { s.Egress[0].CaptureMode = networking.CaptureMode(9); return true })},
+	{"capture-mode-unknown", gvk.Sidecar, sc(func(r *rand.Rand, s *networking.Sidecar) bool {
+		s.Egress[0].CaptureMode = networking.CaptureMode(9)
+		return true
+	})},
 
 	// ---- EnvoyFilter
-	{"patch-nil", gvk.EnvoyFilter, ef(func(r *rand.Rand, s *networking.EnvoyFilter) bool {
-		s.ConfigPatches = append(s.ConfigPatches, pick(r, []*networking.EnvoyFilter_EnvoyConfigObjectPatch{nil, {}, {ApplyTo: networking.EnvoyFilter_CLUSTER}, {ApplyTo: networking.EnvoyFilter_CLUSTER, Patch: &networking.EnvoyFilter_Patch{}}}))
+	{"patch-empty", gvk.EnvoyFilter, ef(func(r *rand.Rand, s *networking.EnvoyFilter) bool {
+		s.ConfigPatches = append(s.ConfigPatches, pick(r, []*networking.EnvoyFilter_EnvoyConfigObjectPatch{{}, {ApplyTo: networking.EnvoyFilter_CLUSTER}, {ApplyTo: networking.EnvoyFilter_CLUSTER, Patch: &networking.EnvoyFilter_Patch{}}}))
 		return true
 	})},
 	{"patch-value-missing", gvk.EnvoyFilter, ef(func(r *rand.Rand, s *networking.EnvoyFilter) bool {
